@@ -86,6 +86,19 @@ impl<'a, T> __RChunks<'a, T> {
         if rem > 0 { n + 1 } else { n }
     }
 
+    /// the k-th item of the iterator itself (RChunks::next: `let chunksz = min(v.len(), chunk_size);
+    /// let (fst, snd) = v.split_at(v.len() - chunksz); v = fst; Some(snd)`): pieces of n elements from the END, the last
+    /// one is what is left at the front
+    pub fn __from_back(&self, k: usize) -> (r: &'a [T])
+        requires self.n != 0, (k as int) < rc_count(self.v@.len() as int, self.n as int),
+        ensures r@ == self.v@.subrange(
+            rc_end(self.v@.len() as int, self.n as int, rc_count(self.v@.len() as int, self.n as int) - 1 - k),
+            rc_end(self.v@.len() as int, self.n as int, rc_count(self.v@.len() as int, self.n as int) - k)),
+    {
+        let cnt = self.len();
+        self.__from_front(cnt - 1 - k)
+    }
+
     /// the k-th item of `.rev()`
     pub fn __from_front(&self, k: usize) -> (r: &'a [T])
         requires self.n != 0, (k as int) < rc_count(self.v@.len() as int, self.n as int),
